@@ -16,7 +16,7 @@ Definition sub_sem (S S' : sem) : bool :=
   forallb (fun sub => val_eqb (gapp (s_ge S) (mem_of sub)) (gapp (s_ge S') (mem_of sub)) &&
                       val_eqb (gapp (s_gu S) (mem_of sub)) (gapp (s_gu S') (mem_of sub)))
           (sublists vs) &&
-  Bool.eqb (s_modal S) (s_modal S') && Bool.eqb (s_quant S) (s_quant S') &&
+  implb (s_modal S') (s_modal S) && implb (s_quant S') (s_quant S) &&
   closed_ok (s_t S) && gen_closed S.
 
 Lemma gen_agree S S' vs : sub_sem S S' = true -> (forall v, In v vs -> In v (t_vals (s_t S))) ->
@@ -32,30 +32,30 @@ Proof.
 Qed.
 
 Theorem eval_sub S S' M : sub_sem S S' = true -> model_wf S M ->
-  forall s w env, eval S' M w env s = eval S M w env s.
+  forall s, interp S' s = true -> forall w env, eval S' M w env s = eval S M w env s.
 Proof.
   intros Hs Hwf.
   pose proof Hs as Hs0. unfold sub_sem in Hs0. rewrite !andb_true_iff in Hs0.
   destruct Hs0 as [[[[[[[[Hv Hd] Hu] Hb] Hg] Hm] Hq] Hc] Hgc].
-  apply Bool.eqb_prop in Hm, Hq.
   assert (Hvals : forall s w env, In (eval S M w env s) (t_vals (s_t S))).
   { intros. apply eval_vals; assumption. }
-  induction s as [n|p ts|o a IH|o a IHa b IHb|o a IH|q x a IH]; intros w env; simpl.
+  induction s as [n|p ts|o a IH|o a IHa b IHb|o a IH|q x a IH]; intros Hi w env; simpl in *.
   - reflexivity.
   - reflexivity.
-  - rewrite IH. symmetry. apply (un_agree_spec _ _ _ Hu). apply Hvals.
-  - rewrite IHa, IHb. symmetry. apply (bin_agree_spec _ _ _ Hb); apply Hvals.
-  - rewrite <- Hm. destruct (s_modal S); [|reflexivity].
+  - rewrite IH by exact Hi. symmetry. apply (un_agree_spec _ _ _ Hu). apply Hvals.
+  - apply andb_true_iff in Hi. destruct Hi as [I1 I2].
+    rewrite IHa, IHb by assumption. symmetry. apply (bin_agree_spec _ _ _ Hb); apply Hvals.
+  - apply andb_true_iff in Hi. destruct Hi as [Hm' Hi]. rewrite Hm'. rewrite Hm' in Hm. simpl in Hm. rewrite Hm.
     assert (E : map (fun u => eval S' M u env a) (acc M w) = map (fun u => eval S M u env a) (acc M w)).
-    { apply map_ext. intro u. apply IH. }
+    { apply map_ext. intro u. apply IH. exact Hi. }
     rewrite E.
     assert (Hin : forall v, In v (map (fun u => eval S M u env a) (acc M w)) -> In v (t_vals (s_t S))).
     { intros v Hv0. apply in_map_iff in Hv0. destruct Hv0 as [u [<- _]]. apply Hvals. }
     destruct (gen_agree S S' _ Hs Hin) as [G1 G2]. destruct o; [rewrite G1|rewrite G2]; reflexivity.
-  - rewrite <- Hq. destruct (s_quant S); [|reflexivity].
+  - apply andb_true_iff in Hi. destruct Hi as [Hq' Hi]. rewrite Hq'. rewrite Hq' in Hq. simpl in Hq. rewrite Hq.
     assert (E : map (fun d => eval S' M w (upd env x d) a) (m_dom M) =
                 map (fun d => eval S M w (upd env x d) a) (m_dom M)).
-    { apply map_ext. intro d. apply IH. }
+    { apply map_ext. intro d. apply IH. exact Hi. }
     rewrite E.
     assert (Hin : forall v, In v (map (fun d => eval S M w (upd env x d) a) (m_dom M)) -> In v (t_vals (s_t S))).
     { intros v Hv0. apply in_map_iff in Hv0. destruct Hv0 as [u [<- _]]. apply Hvals. }
